@@ -30,6 +30,7 @@ Obs(post) ==
    tip       |-> post.tip,
    saved     |-> post.saved,
    startH    |-> post.startH,
+   reported  |-> {},          \* ghost, carried by the trace spec (see StepCall)
    inflight  |-> {[tk |-> post.inflight[i].tk, id |-> post.inflight[i].id, h |-> post.inflight[i].h] : i \in DOMAIN post.inflight}]
 
 D(what, spec) == [l |-> l, what |-> what, spec |-> spec]
@@ -60,8 +61,10 @@ StepCall(e) ==
       bad == StateStepViol(c, p, q) \cup StepViol(c, p, q, a)
   IN
   /\ c' = c
-  /\ p' = q
+  /\ p' = [q EXCEPT !.reported = r.p.reported]
   /\ drift' = drift
+       \cup FailIf(\E i \in DOMAIN q.buffer : ~KnownPair(c, q.buffer[i]), D(e.ev \o ": consensus buffer holds a pair the context does not know", "pair"))
+       \cup (IF e.ev = "Report" THEN FailIf(~KnownPair(c, e.pair), D("Report: unknown pair", "pair")) ELSE {})
        \cup Fld(e.ev \o ": pending differs", r.p.pending, q.pending)
        \cup Fld(e.ev \o ": committed differs", r.p.committed, q.committed)
        \cup Fld(e.ev \o ": clist differs", r.p.list, q.list)
@@ -84,7 +87,9 @@ StepCall(e) ==
 \* the pure verification function on items that cannot reach the pool (ValidateBasic fails)
 StepVerifyDV(e) ==
   /\ UNCHANGED <<c, p, viol>>
-  /\ drift' = drift \cup FailIf(~e.novals /\ (e.res = "ok") # DvProves(c, c.dv[e.id]), D("VerifyDuplicateVote differs", "dv"))
+  /\ drift' = drift \cup (IF IsDv(c, e.id)
+                          THEN FailIf(~e.novals /\ (e.res = "ok") # DvProves(c, c.dv[e.id]), D("VerifyDuplicateVote differs", "dv"))
+                          ELSE {D("VerifyDV: unknown item", "dv")})
 
 StepRestartFailed(e) ==
   /\ UNCHANGED <<c, p, drift>>
